@@ -1,5 +1,5 @@
 SPEC = {
-    "lean_modules": ["AM.Props.Registry", "AM.Props.C19"],
+    "lean_modules": ["AM.Props.Registry", "AM.Props.C19", "AM.Props.C09"],
     "theorems": [
         "AM.Registry.targets_are_live_members", "AM.Registry.join_makes_member", "AM.Registry.leave_of_other_keeps_member", "AM.Registry.address_keyed_table_marks_live_peer_failed",
         "AM.ConnPool.borrow_alive", "AM.ConnPool.inv_send", "AM.ConnPool.recovers_after_one_failure", "AM.ConnPool.delivered_stays_delivered", "AM.ConnPool.stale_entry_never_recovers",
@@ -9,18 +9,24 @@ SPEC = {
         "AM.Gossip.bad_part_does_not_block_others", "AM.Gossip.duplicate_inert", "AM.Gossip.full_state_superset",
         "AM.Gossip.mergeRemote_monotone", "AM.Gossip.mergeRemote_covers", "AM.Gossip.lookup_mergeKV",
         "AM.Gossip.bad_part_blocks_others_old", "AM.Gossip.f5_repaired", "AM.Gossip.old_agrees_without_failure",
+        # the relay step of the dissemination is the receivers' Merge: every accepted update goes back to the gossip layer
+        "AM.Silence.accepted_iff_changed", "AM.Silence.merge_relays_accepted", "AM.Silence.merge_update_relayed",
     ],
     "engines": [
         {"name": "gossip", "pkg": "./gossip", "search_cases": 15000},
         {"name": "mesh", "pkg": "./mesh", "search_cases": 6, "timeout_quick": 300, "timeout_thorough": 900},
         # the TLS gossip transport: concurrent senders on the pooled connection of one peer
         {"name": "tlsframe", "pkg": "./tlsframe", "search_cases": 200, "timeout_quick": 300},
+        # "a broadcast reaches every peer": memberlist transmits an update a bounded number of times, the rest of the fan-out is the
+        # re-broadcast by every receiver whose Merge accepted it (C09's engine: what Silences.Merge hands back to its broadcast function)
+        {"name": "silmerge", "pkg": "./silmerge", "search_cases": 20000, "quick_cases": 1500, "only": ["merge_relays_accepted"]},
     ],
     "rule": "gossip: two real cluster delegates (tagged export) over last-writer-wins test states with registries drawn from {sil,nfl},{sil},{nfl},{nfl,sil,xtra}; "
             "NotifyMsg with well-formed parts (known / unknown key, good / rejected payload) and arbitrary bytes; MergeRemoteState with 1-3 parts incl. rejected "
             "payloads before good ones, and arbitrary bytes; LocalState→MergeRemoteState exchanges; the real cluster.Channel with wrapped sizes 670-701 bytes "
             "around the 700 byte threshold, 0-2 peers, reliable sends held/released, a 204-message flood of the 200-slot oversize queue in 4% of the cases; "
             "mesh: 2-3 real cluster.Peer on 127.0.0.1 with real silence.Silences and nflog.Log, small and oversized updates from every node, a late joiner. "
+            "silmerge (C09's engine, predicate merge_relays_accepted only): after every Silences.Merge of a non-oversized message the number of calls of the broadcast function is at least the number of records that changed the state (new ids and newer versions of known ids alike). "
             "non-trivial = hits a tagged branch",
     "assumptions": [
         "the delegate is driven through fixes/hook-cluster-export.diff (cluster/export_verif.go, build tag verif, add-only): it builds the unexported delegate over a given registry without a memberlist",
